@@ -773,3 +773,18 @@ def main(ctx):
         "small-order remote key -> InvalidSharedSecretError." % (len(evs),
                                                                   length))
     return rep
+
+
+def mixed_cases(ctx):
+    from ecdsa import curves as cv
+    from .c03 import prod_scalars
+    groups = []
+    for names in catalog.same_length_groups()[:4]:
+        items = []
+        for nm in names:
+            ns = len(prod_scalars(int(getattr(cv, nm).order)))
+            for (i, j) in ((0, 1), (ns - 1, 2), (3, ns - 2)):
+                for form in ("object", "bytes", "der", "pem"):
+                    items.append(("real", dict(curve=nm, i=i, j=j, form=form)))
+        groups.append(items)
+    return groups
